@@ -7,6 +7,10 @@ package g_reads
 // v1/services/storage.Store, meta client on an in-memory KV. Nothing is mocked.
 // Oracle: C20's window arithmetic + a table model; the raw rows are what the same reader's
 // ReadFilter returns for the same bounds/predicate (the statement's definition).
+// Two streams: nanosecond windows (250ms … 90m) over datasets of 1–3 hours in shard groups of 1h,
+// and calendar-month windows (1mo … 12mo, offsets in months and/or nanoseconds) over datasets of
+// 5–30 months in shard groups of 7–90 days; the month bounds come from the check's own calendar
+// arithmetic (c20W in c20_test.go), never from flux/interval.
 
 import (
 	"context"
@@ -52,7 +56,11 @@ type c41Env struct {
 	bucket platform.ID
 }
 
-func c41OpenEnv(dir string) (*c41Env, error) {
+func c41OpenEnv(dir string) (*c41Env, error) { return c41OpenEnvSGD(dir, time.Hour) }
+
+// c41OpenEnvSGD opens the store with the given shard group duration (1h for the nanosecond-window
+// datasets spanning hours, days to months for the calendar-window datasets spanning months).
+func c41OpenEnvSGD(dir string, sgd time.Duration) (*c41Env, error) {
 	ctx := context.Background()
 	kv := inmem.NewKVStore()
 	if err := kv.CreateBucket(ctx, meta.BucketName); err != nil {
@@ -63,7 +71,7 @@ func c41OpenEnv(dir string) (*c41Env, error) {
 		return nil, err
 	}
 	e := &c41Env{mc: mc, org: platform.ID(0x0101), bucket: platform.ID(0x0202)}
-	rp := &meta.RetentionPolicySpec{Name: meta.DefaultRetentionPolicyName, ShardGroupDuration: time.Hour}
+	rp := &meta.RetentionPolicySpec{Name: meta.DefaultRetentionPolicyName, ShardGroupDuration: sgd}
 	if _, err := mc.CreateDatabaseWithRetentionPolicy(e.bucket.String(), rp); err != nil {
 		mc.Close()
 		return nil, err
@@ -128,6 +136,18 @@ func (e *c41Env) snapshotSome(rg *vkit.Rand, num, den int) (int, error) {
 		}
 	}
 	return n, nil
+}
+
+func (e *c41Env) shardCount() int {
+	groups, err := e.mc.ShardGroupsByTimeRange(e.bucket.String(), meta.DefaultRetentionPolicyName, time.Unix(0, models.MinNanoTime), time.Unix(0, models.MaxNanoTime))
+	if err != nil {
+		return -1
+	}
+	n := 0
+	for _, g := range groups {
+		n += len(g.Shards)
+	}
+	return n
 }
 
 func (e *c41Env) source() *anypb.Any {
@@ -225,7 +245,11 @@ func (s *c41Series) sorted() []int64 {
 
 type c41Dataset struct {
 	no     int
-	base   int64 // hour aligned
+	kind   string        // "" (hours, nanosecond windows) or "months"
+	m0, nm int64         // months: first month (months since 1970-01) and number of months
+	sgd    time.Duration // months: shard group duration of the store
+	shards int
+	base   int64 // hour aligned (months: 00:00 of the first day of month m0)
 	span   int64
 	series []*c41Series
 	everys []int64
@@ -245,7 +269,165 @@ func (d *c41Dataset) describe() string {
 	for _, x := range d.series {
 		s = append(s, fmt.Sprintf("%s/%s:%s:%s:%d", x.m, x.field, c20TypeName(x.typ), x.style, len(x.pts)))
 	}
+	if d.kind == "months" {
+		y, m, _ := c20CivilFromDays(d.base / c20Day)
+		return fmt.Sprintf("months#%d first_month=%04d-%02d months=%d shard_group_duration=%dd shards=%d snapshots=%d series=%v", d.no, y, m, d.nm, int64(d.sgd/(24*time.Hour)), d.shards, d.snaps, s)
+	}
 	return fmt.Sprintf("#%d base=%d span=%dh snapshots=%d series=%v", d.no, d.base, d.span/c41Hour, d.snaps, s)
+}
+
+// c41GenMonthDataset: series spanning 5–30 calendar months around leap / non-leap Februaries and
+// the epoch; points days or hours apart, whole months without points, points exactly on month
+// boundaries (00:00:00 UTC of the first day) and the nanosecond before / after them.
+func c41GenMonthDataset(rg *vkit.Rand, no int) *c41Dataset {
+	d := &c41Dataset{no: no, kind: "months"}
+	ym := func(y, m int64) int64 { return (y-1970)*12 + m - 1 }
+	d.m0 = vkit.Pick(rg, []int64{ym(2019, 9), ym(1967, 6), ym(1999, 8), ym(1899, 7), ym(2023, 3), ym(1969, 4), ym(2099, 6), ym(1923, 11), ym(2015, 12)}) + int64(rg.Intn(5))
+	d.nm = int64(rg.Range(5, 30))
+	d.base = c20MonthStart(d.m0)
+	d.span = c20MonthStart(d.m0+d.nm) - d.base
+	// shard groups: several per series, never one per point
+	switch {
+	case d.nm <= 7:
+		d.sgd = vkit.Pick(rg, []time.Duration{7, 14, 30}) * 24 * time.Hour
+	case d.nm <= 16:
+		d.sgd = vkit.Pick(rg, []time.Duration{30, 45}) * 24 * time.Hour
+	default:
+		d.sgd = vkit.Pick(rg, []time.Duration{60, 90}) * 24 * time.Hour
+	}
+	types := []byte{'f', 'i', 'u', 's', 'b', 'f', 'i'}
+	ns := rg.Range(4, 7)
+	hour := c41Hour
+	for i := 0; i < ns; i++ {
+		typ := types[i]
+		kind := "num"
+		if typ == 's' || typ == 'b' {
+			kind = "txt"
+		}
+		s := &c41Series{m: fmt.Sprintf("%s%d", map[string]string{"num": "m", "txt": "t"}[kind], i%2), field: "v" + string(typ), tags: map[string]string{"k": kind, "h": fmt.Sprintf("h%d", i)}, typ: typ, pts: map[int64]sk.Val{}}
+		vmode := rg.Intn(2)
+		add := func(t int64) {
+			if t < d.base || t >= d.base+d.span {
+				return
+			}
+			s.pts[t] = c20Value(rg, typ, vmode, len(s.pts))
+		}
+		// months of the span that stay without points in this series
+		dead := map[int64]bool{}
+		if rg.Chance(2, 3) {
+			for j, nd := 0, rg.Range(1, int(d.nm)/2); j < nd; j++ {
+				dead[d.m0+int64(rg.Intn(int(d.nm)))] = true
+			}
+		}
+		addLive := func(t int64) {
+			if !dead[c20MonthIdx(t)] {
+				add(t)
+			}
+		}
+		switch rg.Intn(5) {
+		case 0: // pseudo-random steps of hours to days
+			s.style = "steps"
+			maxStep := vkit.Pick(rg, []int64{30 * hour, 4 * 24 * hour, 11 * 24 * hour})
+			for t := d.base + int64(rg.Uint64()%uint64(maxStep)); t < d.base+d.span; t += 1 + int64(rg.Uint64()%uint64(maxStep)) {
+				if rg.Bool() {
+					t = t / hour * hour
+				}
+				addLive(t)
+			}
+		case 1: // month boundaries and their neighbours, plus a few points in between
+			s.style = "boundaries"
+			for m := d.m0; m <= d.m0+d.nm; m++ {
+				b := c20MonthStart(m)
+				if rg.Chance(3, 4) {
+					add(b)
+				}
+				if rg.Chance(3, 4) {
+					add(b - 1)
+				}
+				if rg.Chance(1, 3) {
+					add(b + 1)
+				}
+				if rg.Chance(1, 3) {
+					add(b + int64(rg.Uint64()%uint64(28*c20Day)))
+				}
+			}
+		case 2: // sparse: single points in some months
+			s.style = "sparse"
+			for j, n := 0, rg.Range(3, 40); j < n; j++ {
+				addLive(d.base + int64(rg.Uint64()%uint64(d.span)))
+			}
+		case 3: // clusters of points hours or days apart, long silences
+			s.style = "clusters"
+			for c, nc := 0, rg.Range(2, 7); c < nc; c++ {
+				t0 := d.base + int64(rg.Uint64()%uint64(d.span))
+				step := vkit.Pick(rg, []int64{hour, 7 * hour, 24 * hour, 3 * 24 * hour})
+				for j, n := 0, rg.Range(3, 60); j < n; j++ {
+					add(t0 + int64(j)*step)
+				}
+			}
+		default: // the last and first day of months, densely (a window change every few points)
+			s.style = "month_ends"
+			for m := d.m0 + 1; m < d.m0+d.nm; m++ {
+				if dead[m] {
+					continue
+				}
+				b := c20MonthStart(m)
+				for j, n := 0, rg.Range(1, 6); j < n; j++ {
+					add(b + (int64(rg.Intn(48))-24)*hour + int64(rg.Intn(2))*int64(rg.Intn(1000)))
+				}
+				if m == d.m0+2 || rg.Chance(1, 4) { // 28th … 1st: the end of February in leap and other years
+					for dd := int64(-3); dd <= 0; dd++ {
+						add(b + dd*c20Day)
+						add(b + dd*c20Day - 1)
+					}
+				}
+			}
+		}
+		if len(s.pts) == 0 {
+			add(d.base + d.span/2)
+		}
+		d.nPts += len(s.pts)
+		d.series = append(d.series, s)
+	}
+	return d
+}
+
+// monthBounds picks query bounds for a month dataset: dataset edges, month boundaries (±1 ns),
+// point times, instants inside months; sometimes months beyond the data on either side.
+func (d *c41Dataset) monthBounds(rg *vkit.Rand) (int64, int64) {
+	pt := func() int64 {
+		s := vkit.Pick(rg, d.series)
+		ts := s.sorted()
+		return ts[rg.Intn(len(ts))]
+	}
+	edge := func() int64 {
+		switch rg.Intn(6) {
+		case 0:
+			return d.base
+		case 1:
+			return d.base + d.span
+		case 2:
+			return pt() + int64(rg.Intn(2))
+		case 3, 4:
+			return c20MonthStart(d.m0+int64(rg.Intn(int(d.nm)+1))) + int64(rg.Intn(3)) - 1
+		default:
+			return d.base + int64(rg.Uint64()%uint64(d.span))
+		}
+	}
+	lo, hi := edge(), edge()
+	if rg.Chance(1, 4) {
+		lo = c20MonthStart(d.m0-int64(rg.Intn(4))) - int64(rg.Intn(2))*int64(rg.Uint64()%uint64(20*c20Day))
+	}
+	if rg.Chance(1, 4) {
+		hi = c20MonthStart(d.m0+d.nm+int64(rg.Intn(4))) + int64(rg.Intn(2))*int64(rg.Uint64()%uint64(20*c20Day))
+	}
+	if lo > hi {
+		lo, hi = hi, lo
+	}
+	if lo == hi {
+		hi = lo + 1 + int64(rg.Intn(100))*c20Day
+	}
+	return lo, hi
 }
 
 func c41GenDataset(rg *vkit.Rand, no int) *c41Dataset {
@@ -625,12 +807,18 @@ type c41Spec struct {
 	AggName     string `json:"agg"`
 	Every       int64  `json:"every"`
 	Offset      int64  `json:"offset"`
+	EveryMo     int64  `json:"every_months,omitempty"`
+	OffsetMo    int64  `json:"offset_months,omitempty"`
 	Lo          int64  `json:"bounds_start"`
 	Hi          int64  `json:"bounds_stop"`
 	CreateEmpty bool   `json:"create_empty"`
 	TimeColumn  string `json:"time_column"`
 	Force       bool   `json:"force_aggregate"`
 	NumericOnly bool   `json:"predicate_numeric_series_only"`
+}
+
+func (sp c41Spec) w() c20W {
+	return c20W{Months: sp.EveryMo, Every: sp.Every, OffMonths: sp.OffsetMo, Offset: sp.Offset}
 }
 
 // c41Want is one expected window of one series.
@@ -653,7 +841,8 @@ func c41Windows(pts []sk.Pt, sp c41Spec, all bool) []c41Want {
 		}
 		return s, e
 	}
-	nonEmpty := c20Expect(pts, sp.Agg, sp.Every, sp.Offset)
+	win := sp.w()
+	nonEmpty := c20ExpectW(pts, sp.Agg, win)
 	var out []c41Want
 	if !all {
 		for _, r := range nonEmpty {
@@ -663,7 +852,7 @@ func c41Windows(pts []sk.Pt, sp c41Spec, all bool) []c41Want {
 		return out
 	}
 	k := 0
-	for s, e := c20Win(sp.Lo, sp.Every, sp.Offset); s < sp.Hi; s, e = e, e+sp.Every {
+	for s, e := win.win(sp.Lo); s < sp.Hi; s, e = win.win(e) {
 		cs, ce := clip(s, e)
 		w := c41Want{cs: cs, ce: ce, ws: s, we: e, empty: true}
 		if k < len(nonEmpty) && nonEmpty[k].Start == s {
@@ -883,19 +1072,241 @@ func c41Bool(b bool) string {
 func TestC41(t *testing.T) {
 	r := vkit.Start(t, "C41", "exploration")
 	defer r.Finish()
-	r.Rule("case = (dataset in a real store, aggregate, every, offset, query bounds, createEmpty, time column none|_start|_stop, forceAggregate); every series the filter read returns for the bounds is compared window by window; non-trivial = some series has ≥2 expected windows; distinct = hash of (dataset, spec)")
+	r.Rule("case = (dataset in a real store, aggregate, every, offset, query bounds, createEmpty, time column none|_start|_stop, forceAggregate); every series the filter read returns for the bounds is compared window by window; non-trivial = some series has ≥2 expected windows; distinct = hash of (dataset, spec). Stream 1: every in nanoseconds over datasets of 1–3 hours; stream 2: every ∈ {1,2,3,6,12} calendar months over datasets of 5–30 months (leap and non-leap Februaries, before and across 1970, points on month boundaries and 1 ns before them, months without points, several shards per series), all 7 aggregates equally often, 1 in 6 createEmpty queries of 1mo/2mo with 1001–2400 windows")
 	r.Assume("raw rows = what the same reader's ReadFilter returns for the same bounds and predicate (statement); a series with no raw row in the bounds yields no table",
 		"with a time column (aggregateWindow) selectors show only non-empty windows unless forceAggregate (storage/flux/reader.go comment; Flux drops the empty tables selectors leave)",
 		"without a time column an empty window of a selector may be an empty table or one null row (Flux semantics; query/storage.go ForceAggregate comment)",
 		"min/max/sum/mean are asked for numeric series only (tag predicate): on string/boolean input the storage layer panics / errors, which is outside this property",
-		"offsets ≥ 0 (the planner never pushes a negative offset down), every ∈ {250ms … 90m}, period = every; for tied min/max any tied row's time is accepted")
+		"offsets ≥ 0 (the planner never pushes a negative offset down), every ∈ {250ms … 90m} or {1,2,3,6,12} calendar months, period = every; for tied min/max any tied row's time is accepted",
+		"calendar windows (doc comments of interval.NewWindow / interval.Window in the vendored flux v0.200.0 source: \"Window boundaries start at the epoch plus the offset. Each subsequent window starts at a multiple of the every duration\", window_start_i = zero + every*i; values.Time.Add adds months on the UTC calendar keeping day and clock): window i of every=M months, offset=K months + d ns starts at 00:00:00 UTC of the first day of month K+i*M counted from January 1970, plus d, and ends where window i+1 starts; d < 28 days so that the shifted start exists in every month (day-of-month clamping is not exercised); mixed every (months and nanoseconds) is invalid in Flux and not generated",
+		"query bounds span at most 200 years (stop-start stays below 2^63 ns)")
 	r.Trust("storage.Engine + v1/services/storage.Store + meta client on inmem KV assembled in-process as storage/flux/table_test.go does; background compactions, retention and precreator services off")
 
 	nQueries := r.N(1500, 20000)
 	perEnv := r.N(125, 400)
+	nMonthQueries := r.N(480, 4800)
+	perMonthEnv := r.N(80, 150)
 	ctx := context.Background()
-	done := 0
 	maxAllocPerMille, maxAllocRatioN := 0, 1000
+	sampled := false // set by exec when the query went into the evidence samples
+
+	// exec runs one query against the env and compares every series with the model; false = stop the run
+	exec := func(env *c41Env, ds *c41Dataset, envNo, qNo int, sp c41Spec, pred *datatypes.Predicate, sample bool) bool {
+		win := sp.w()
+		raw, order, err := env.rawTables(sp.Lo, sp.Hi, pred)
+		if err != nil {
+			r.Inconclusive("ReadFilter failed: " + err.Error())
+			return true
+		}
+		// budget for runaway protection: the largest legitimate output
+		budget := 5000
+		for _, rw := range raw {
+			budget += 3 * (len(rw.pts) + 2)
+			if sp.CreateEmpty {
+				budget += 3 * int((sp.Hi-sp.Lo)/win.approxEvery()+2)
+			}
+		}
+		calloc := &c41CountAlloc{inner: arrowmem.DefaultAllocator, limit: 20000 + 5*budget}
+		got := map[string][]*c41Table{}
+		var gotOrder []string
+		var qerr error
+		finished := make(chan struct{})
+		go func() {
+			defer close(finished)
+			defer func() {
+				if p := recover(); p != nil {
+					qerr = fmt.Errorf("panic: %v", p)
+				}
+			}()
+			every := values.MakeDuration(sp.Every, sp.EveryMo, false)
+			ti, err := env.reader.ReadWindowAggregate(ctx, query.ReadWindowAggregateSpec{
+				ReadFilterSpec: query.ReadFilterSpec{OrganizationID: env.org, BucketID: env.bucket, Predicate: pred,
+					Bounds: execute.Bounds{Start: values.Time(sp.Lo), Stop: values.Time(sp.Hi)}},
+				Aggregates:     []plan.ProcedureKind{plan.ProcedureKind(sp.AggName)},
+				Window:         execute.Window{Every: every, Period: every, Offset: values.MakeDuration(sp.Offset, sp.OffsetMo, false)},
+				CreateEmpty:    sp.CreateEmpty,
+				TimeColumn:     sp.TimeColumn,
+				ForceAggregate: sp.Force,
+			}, memory.NewResourceAllocator(calloc))
+			if err != nil {
+				qerr = err
+				return
+			}
+			qerr = ti.Do(func(tbl flux.Table) error {
+				tb, err := c41ReadTable(tbl, &budget)
+				if err != nil {
+					return err
+				}
+				if _, ok := got[tb.series]; !ok {
+					gotOrder = append(gotOrder, tb.series)
+				}
+				got[tb.series] = append(got[tb.series], tb)
+				return nil
+			})
+		}()
+		select {
+		case <-finished:
+		case <-time.After(90 * time.Second):
+			// last resort (a loop that neither emits nor allocates): undecided, and the engine
+			// cannot be closed under a spinning reader
+			r.Inconclusive("ReadWindowAggregate did not return within the 90 s watchdog")
+			r.Extra("watchdog_spec", sp)
+			return false
+		}
+		r.Event("buffer_allocations", int64(calloc.n))
+		if calloc.n > maxAllocRatioN*1 && calloc.n*1000/(budget+1) > maxAllocPerMille {
+			maxAllocPerMille = calloc.n * 1000 / (budget + 1)
+			r.Extra("max_allocations_per_1000_budget_rows", maxAllocPerMille)
+		}
+		feats := func(typ byte, kind string) map[string]string {
+			tc := sp.TimeColumn
+			if tc == "" {
+				tc = "none"
+			}
+			ou := "none"
+			switch {
+			case sp.OffsetMo != 0 && sp.Offset != 0:
+				ou = "months+nsecs"
+			case sp.OffsetMo != 0:
+				ou = "months"
+			case sp.Offset != 0:
+				ou = "nsecs"
+			}
+			return map[string]string{"agg": sp.AggName, "type": c20TypeName(typ), "create_empty": c41Bool(sp.CreateEmpty), "time_column": tc, "force_aggregate": c41Bool(sp.Force), "diff": kind,
+				"window_unit": win.unit(), "offset_unit": ou}
+		}
+		wit := func(series string, typ byte, kind, detail string) c41Wit {
+			w := c41Wit{Spec: sp, Dataset: ds.describe(), Series: series, Type: c20TypeName(typ), DiffKind: kind, Detail: detail,
+				Replay: fmt.Sprintf("VERIF_SEED=%d %sdataset %d query %d", r.Seed, ds.kind, envNo, qNo)}
+			if rw := raw[series]; rw != nil {
+				w.NRaw = len(rw.pts)
+				w.RawHead = c20FmtPts(rw.pts, 12)
+				if len(rw.pts) > 12 {
+					w.RawTail = c20FmtPts(rw.pts[len(rw.pts)-6:], 6)
+				}
+			}
+			w.NTables = len(got[series])
+			for _, tb := range got[series] {
+				w.NRows += len(tb.rows)
+			}
+			return w
+		}
+		// class names the failing table implementation + trigger narrowly (known findings match on it)
+		report := func(typ byte, kind string, w c41Wit) {
+			class := "window_table_mismatch"
+			selector := c20IsSelector(sp.Agg)
+			switch {
+			case kind == "runaway_output" && selector && sp.Force && !sp.CreateEmpty:
+				class = "force_aggregate_selector_without_create_empty_never_ends"
+			case kind == "trailing_empty_windows_dropped_after_full_buffer" && selector && sp.CreateEmpty && sp.TimeColumn == "" && !sp.Force:
+				class = "empty_window_selector_table_drops_trailing_windows"
+			}
+			r.Event("violations_"+class, 1)
+			if win.isMonths() {
+				r.Event("month_violations_"+class, 1)
+			}
+			r.Violation(class, feats(typ, kind), w)
+		}
+		nonTrivial := false
+		if qerr != nil {
+			kind := "error"
+			if errors.Is(qerr, errC41Runaway) || strings.Contains(qerr.Error(), errC41Runaway.Error()) {
+				kind = "runaway_output"
+			} else if strings.Contains(qerr.Error(), errC41AllocRunaway.Error()) {
+				kind = "runaway_without_output"
+			}
+			typ := byte('f')
+			ser := ""
+			if len(gotOrder) > 0 {
+				ser = gotOrder[len(gotOrder)-1]
+				if rw := raw[ser]; rw != nil {
+					typ = rw.typ
+				}
+			}
+			report(typ, kind, wit(ser, typ, kind, qerr.Error()))
+		} else {
+			for _, series := range order {
+				rw := raw[series]
+				kind, detail, ew, est, esn := c41Check(sp, rw.typ, rw.pts, got[series])
+				r.Event("series_compared", 1)
+				r.Event("empty_windows_expected", int64(ew))
+				r.Event("selector_empty_window_as_empty_table", int64(est))
+				r.Event("selector_empty_window_as_null_row", int64(esn))
+				nw := len(c20ExpectW(rw.pts, sp.Agg, win))
+				r.Event("nonempty_windows_compared", int64(nw))
+				if win.isMonths() {
+					r.Event("month_series_compared", 1)
+					r.Event("month_nonempty_windows_compared", int64(nw))
+					r.Event("month_empty_windows_expected", int64(ew))
+				}
+				if nw >= 2 {
+					nonTrivial = true
+				}
+				if nw+ew > reads.MaxPointsPerBlock {
+					r.Event("series_with_over_1000_windows", 1)
+					if win.isMonths() {
+						r.Event("month_series_with_over_1000_windows", 1)
+					}
+				}
+				if kind != "" {
+					report(rw.typ, kind, wit(series, rw.typ, kind, detail))
+					break
+				}
+			}
+			for _, series := range gotOrder {
+				if raw[series] != nil {
+					continue
+				}
+				// a series the filter read does not return must not carry values
+				r.Event("tables_for_series_without_raw_rows", 1)
+				for _, tb := range got[series] {
+					for _, row := range tb.rows {
+						if !row.null && !(sp.Agg == c20Count && row.v == sk.IntVal(0)) {
+							report('f', "phantom_series", wit(series, 'f', "phantom_series", fmt.Sprintf("value %s for a series the filter read does not return", row.v)))
+						}
+					}
+				}
+			}
+		}
+		tc := sp.TimeColumn
+		r.Event("queries_timecol_"+map[string]string{"": "none", "_start": "start", "_stop": "stop"}[tc], 1)
+		if sp.CreateEmpty {
+			r.Event("queries_create_empty", 1)
+		}
+		if sp.Force {
+			r.Event("queries_force_aggregate", 1)
+		}
+		r.Case(fmt.Sprint(ds.describe(), sp), nonTrivial)
+		if sample && r.WantSample() && nonTrivial {
+			smp := map[string]any{"spec": sp, "dataset": ds.describe(), "series_in_bounds": len(order)}
+			if len(order) > 0 {
+				rw := raw[order[0]]
+				var ws []string
+				for i, w := range c41Windows(rw.pts, sp, sp.CreateEmpty) {
+					if i >= 4 {
+						ws = append(ws, "…")
+						break
+					}
+					if w.empty {
+						ws = append(ws, fmt.Sprintf("[%d,%d) empty", w.cs, w.ce))
+					} else {
+						ws = append(ws, fmt.Sprintf("[%d,%d) %d raw rows -> %s", w.cs, w.ce, w.row.N, w.row.V))
+					}
+				}
+				smp["first_series"] = order[0]
+				smp["first_series_raw_rows"] = len(rw.pts)
+				smp["first_series_tables"] = len(got[order[0]])
+				smp["first_series_expected_windows_head"] = ws
+			}
+			r.Sample(smp)
+			sampled = true
+		}
+		return true
+	}
+
+	// ---- stream 1: nanosecond windows over datasets of 1–3 hours (shard groups of 1h) -------------
+	done := 0
+	nsSamples := 0
 	for envNo := 0; done < nQueries; envNo++ {
 		rg := r.SubRand("env", envNo)
 		env, err := c41OpenEnv(t.TempDir())
@@ -912,8 +1323,7 @@ func TestC41(t *testing.T) {
 		r.Event("datasets", 1)
 		r.Event("points_written_distinct", int64(ds.nPts))
 		r.Event("shard_snapshots", int64(ds.snaps))
-		abort := false
-		for q := 0; q < perEnv && done < nQueries && !abort; q, done = q+1, done+1 {
+		for q := 0; q < perEnv && done < nQueries; q, done = q+1, done+1 {
 			qg := r.Rand(done)
 			sp := c41Spec{Agg: qg.Intn(7)}
 			sp.AggName = c20AggNames[sp.Agg]
@@ -938,196 +1348,90 @@ func TestC41(t *testing.T) {
 			sp.Lo, sp.Hi = ds.bounds(qg, sp.Every, maxW)
 			pred := c41PredFor(sp.Agg)
 			sp.NumericOnly = pred != nil
-
-			raw, order, err := env.rawTables(sp.Lo, sp.Hi, pred)
-			if err != nil {
-				r.Inconclusive("ReadFilter failed: " + err.Error())
-				continue
-			}
-			// budget for runaway protection: the largest legitimate output
-			budget := 5000
-			for _, rw := range raw {
-				budget += 3 * (len(rw.pts) + 2)
-				if sp.CreateEmpty {
-					budget += 3 * int((sp.Hi-sp.Lo)/sp.Every+2)
-				}
-			}
-			calloc := &c41CountAlloc{inner: arrowmem.DefaultAllocator, limit: 20000 + 5*budget}
-			got := map[string][]*c41Table{}
-			var gotOrder []string
-			var qerr error
-			finished := make(chan struct{})
-			go func() {
-				defer close(finished)
-				defer func() {
-					if p := recover(); p != nil {
-						qerr = fmt.Errorf("panic: %v", p)
-					}
-				}()
-				ti, err := env.reader.ReadWindowAggregate(ctx, query.ReadWindowAggregateSpec{
-					ReadFilterSpec: query.ReadFilterSpec{OrganizationID: env.org, BucketID: env.bucket, Predicate: pred,
-						Bounds: execute.Bounds{Start: values.Time(sp.Lo), Stop: values.Time(sp.Hi)}},
-					Aggregates:     []plan.ProcedureKind{plan.ProcedureKind(sp.AggName)},
-					Window:         execute.Window{Every: values.ConvertDurationNsecs(time.Duration(sp.Every)), Period: values.ConvertDurationNsecs(time.Duration(sp.Every)), Offset: values.ConvertDurationNsecs(time.Duration(sp.Offset))},
-					CreateEmpty:    sp.CreateEmpty,
-					TimeColumn:     sp.TimeColumn,
-					ForceAggregate: sp.Force,
-				}, memory.NewResourceAllocator(calloc))
-				if err != nil {
-					qerr = err
-					return
-				}
-				qerr = ti.Do(func(tbl flux.Table) error {
-					tb, err := c41ReadTable(tbl, &budget)
-					if err != nil {
-						return err
-					}
-					if _, ok := got[tb.series]; !ok {
-						gotOrder = append(gotOrder, tb.series)
-					}
-					got[tb.series] = append(got[tb.series], tb)
-					return nil
-				})
-			}()
-			select {
-			case <-finished:
-			case <-time.After(90 * time.Second):
-				// last resort (a loop that neither emits nor allocates): undecided, and the engine
-				// cannot be closed under a spinning reader
-				r.Inconclusive("ReadWindowAggregate did not return within the 90 s watchdog")
-				r.Extra("watchdog_spec", sp)
+			// (two of the six evidence samples are left to the month stream)
+			sampled = false
+			if !exec(env, ds, envNo, done, sp, pred, nsSamples < 4 && done%211 == 3) {
 				return
 			}
-			r.Event("buffer_allocations", int64(calloc.n))
-			if calloc.n > maxAllocRatioN*1 && calloc.n*1000/(budget+1) > maxAllocPerMille {
-				maxAllocPerMille = calloc.n * 1000 / (budget + 1)
-				r.Extra("max_allocations_per_1000_budget_rows", maxAllocPerMille)
-			}
-			feats := func(typ byte, kind string) map[string]string {
-				tc := sp.TimeColumn
-				if tc == "" {
-					tc = "none"
-				}
-				return map[string]string{"agg": sp.AggName, "type": c20TypeName(typ), "create_empty": c41Bool(sp.CreateEmpty), "time_column": tc, "force_aggregate": c41Bool(sp.Force), "diff": kind}
-			}
-			wit := func(series string, typ byte, kind, detail string) c41Wit {
-				w := c41Wit{Spec: sp, Dataset: ds.describe(), Series: series, Type: c20TypeName(typ), DiffKind: kind, Detail: detail,
-					Replay: fmt.Sprintf("VERIF_SEED=%d dataset %d query %d", r.Seed, envNo, done)}
-				if rw := raw[series]; rw != nil {
-					w.NRaw = len(rw.pts)
-					w.RawHead = c20FmtPts(rw.pts, 12)
-					if len(rw.pts) > 12 {
-						w.RawTail = c20FmtPts(rw.pts[len(rw.pts)-6:], 6)
-					}
-				}
-				w.NTables = len(got[series])
-				for _, tb := range got[series] {
-					w.NRows += len(tb.rows)
-				}
-				return w
-			}
-			// class names the failing table implementation + trigger narrowly (known findings match on it)
-			report := func(typ byte, kind string, w c41Wit) {
-				class := "window_table_mismatch"
-				selector := c20IsSelector(sp.Agg)
-				switch {
-				case kind == "runaway_output" && selector && sp.Force && !sp.CreateEmpty:
-					class = "force_aggregate_selector_without_create_empty_never_ends"
-				case kind == "trailing_empty_windows_dropped_after_full_buffer" && selector && sp.CreateEmpty && sp.TimeColumn == "" && !sp.Force:
-					class = "empty_window_selector_table_drops_trailing_windows"
-				}
-				r.Event("violations_"+class, 1)
-				r.Violation(class, feats(typ, kind), w)
-			}
-			nonTrivial := false
-			if qerr != nil {
-				kind := "error"
-				if errors.Is(qerr, errC41Runaway) || strings.Contains(qerr.Error(), errC41Runaway.Error()) {
-					kind = "runaway_output"
-				} else if strings.Contains(qerr.Error(), errC41AllocRunaway.Error()) {
-					kind = "runaway_without_output"
-				}
-				typ := byte('f')
-				ser := ""
-				if len(gotOrder) > 0 {
-					ser = gotOrder[len(gotOrder)-1]
-					if rw := raw[ser]; rw != nil {
-						typ = rw.typ
-					}
-				}
-				report(typ, kind, wit(ser, typ, kind, qerr.Error()))
-			} else {
-				for _, series := range order {
-					rw := raw[series]
-					kind, detail, ew, est, esn := c41Check(sp, rw.typ, rw.pts, got[series])
-					r.Event("series_compared", 1)
-					r.Event("empty_windows_expected", int64(ew))
-					r.Event("selector_empty_window_as_empty_table", int64(est))
-					r.Event("selector_empty_window_as_null_row", int64(esn))
-					nw := len(c20Expect(rw.pts, sp.Agg, sp.Every, sp.Offset))
-					r.Event("nonempty_windows_compared", int64(nw))
-					if nw >= 2 {
-						nonTrivial = true
-					}
-					if nw+ew > reads.MaxPointsPerBlock {
-						r.Event("series_with_over_1000_windows", 1)
-					}
-					if kind != "" {
-						report(rw.typ, kind, wit(series, rw.typ, kind, detail))
-						break
-					}
-				}
-				for _, series := range gotOrder {
-					if raw[series] != nil {
-						continue
-					}
-					// a series the filter read does not return must not carry values
-					r.Event("tables_for_series_without_raw_rows", 1)
-					for _, tb := range got[series] {
-						for _, row := range tb.rows {
-							if !row.null && !(sp.Agg == c20Count && row.v == sk.IntVal(0)) {
-								report('f', "phantom_series", wit(series, 'f', "phantom_series", fmt.Sprintf("value %s for a series the filter read does not return", row.v)))
-							}
-						}
-					}
-				}
-			}
-			tc := sp.TimeColumn
-			r.Event("queries_timecol_"+map[string]string{"": "none", "_start": "start", "_stop": "stop"}[tc], 1)
-			if sp.CreateEmpty {
-				r.Event("queries_create_empty", 1)
-			}
-			if sp.Force {
-				r.Event("queries_force_aggregate", 1)
-			}
-			r.Case(fmt.Sprint(ds.describe(), sp), nonTrivial)
-			if r.WantSample() && nonTrivial && done%211 == 3 {
-				smp := map[string]any{"spec": sp, "dataset": ds.describe(), "series_in_bounds": len(order)}
-				if len(order) > 0 {
-					rw := raw[order[0]]
-					var ws []string
-					for i, w := range c41Windows(rw.pts, sp, sp.CreateEmpty) {
-						if i >= 4 {
-							ws = append(ws, "…")
-							break
-						}
-						if w.empty {
-							ws = append(ws, fmt.Sprintf("[%d,%d) empty", w.cs, w.ce))
-						} else {
-							ws = append(ws, fmt.Sprintf("[%d,%d) %d raw rows -> %s", w.cs, w.ce, w.row.N, w.row.V))
-						}
-					}
-					smp["first_series"] = order[0]
-					smp["first_series_raw_rows"] = len(rw.pts)
-					smp["first_series_tables"] = len(got[order[0]])
-					smp["first_series_expected_windows_head"] = ws
-				}
-				r.Sample(smp)
+			if sampled {
+				nsSamples++
 			}
 		}
 		env.Close()
-		if abort {
+	}
+
+	// ---- stream 2: calendar-month windows over datasets of 5–30 months ----------------------------
+	if msg := c20CalendarSelfTest(r.SubRand("calendar-selftest", 0)); msg != "" {
+		r.Inconclusive("the oracle's calendar arithmetic disagrees with package time: " + msg)
+		return
+	}
+	r.Event("calendar_selftest_months_checked", c20MaxMonth-c20MinMonth+1)
+	tMonths := time.Now() // reporting only
+	for envNo, mdone := 0, 0; mdone < nMonthQueries; envNo++ {
+		rg := r.SubRand("month-env", envNo)
+		ds := c41GenMonthDataset(rg, envNo)
+		env, err := c41OpenEnvSGD(t.TempDir(), ds.sgd)
+		if err != nil {
+			r.Inconclusive("real store could not be opened: " + err.Error())
 			return
 		}
+		if err := ds.load(env, rg); err != nil {
+			env.Close()
+			r.Inconclusive("real store write failed: " + err.Error())
+			return
+		}
+		ds.shards = env.shardCount()
+		r.Event("month_datasets", 1)
+		r.Event("month_dataset_shards", int64(ds.shards))
+		r.Event("month_dataset_months", ds.nm)
+		r.Event("points_written_distinct", int64(ds.nPts))
+		r.Event("shard_snapshots", int64(ds.snaps))
+		for q := 0; q < perMonthEnv && mdone < nMonthQueries; q, mdone = q+1, mdone+1 {
+			qg := r.SubRand("month-query", mdone)
+			sp := c41Spec{Agg: mdone % 7} // every aggregate equally often
+			sp.AggName = c20AggNames[sp.Agg]
+			sp.EveryMo = vkit.Pick(qg, c20MonthEverys)
+			sp.OffsetMo, sp.Offset = c20MonthOffsets(qg, sp.EveryMo)
+			sp.CreateEmpty = qg.Bool()
+			sp.TimeColumn = vkit.Pick(qg, []string{"", "", execute.DefaultStartColLabel, execute.DefaultStopColLabel})
+			sp.Force = qg.Chance(1, 4)
+			sp.Lo, sp.Hi = ds.monthBounds(qg)
+			if sp.CreateEmpty && sp.EveryMo <= 2 && qg.Chance(1, 6) {
+				// wide bounds: 1001–2400 windows of 1mo (1001–1200 of 2mo), i.e. one or two full 1000-window buffers around the data
+				// (at most 2400 months = 200 years, so that stop-start stays far below 2^63 ns)
+				nMo := int64(qg.Range(1001, int(2400/sp.EveryMo))) * sp.EveryMo
+				loM := ds.m0 - int64(qg.Intn(24))
+				if qg.Bool() {
+					loM = ds.m0 + ds.nm - int64(qg.Intn(int(nMo)))
+				}
+				if loM < c20MinMonth {
+					loM = c20MinMonth
+				}
+				if loM+nMo > c20MaxMonth {
+					loM = c20MaxMonth - nMo
+				}
+				sp.Lo = c20MonthStart(loM) + int64(qg.Intn(3)) - 1
+				sp.Hi = c20MonthStart(loM+nMo) + int64(qg.Intn(3)) - 1
+				r.Event("month_queries_wide_bounds", 1)
+			}
+			pred := c41PredFor(sp.Agg)
+			sp.NumericOnly = pred != nil
+			r.Event("month_queries", 1)
+			r.Event(fmt.Sprintf("month_queries_every_%dmo", sp.EveryMo), 1)
+			r.Event("month_queries_agg_"+sp.AggName, 1)
+			switch {
+			case sp.OffsetMo != 0 && sp.Offset != 0:
+				r.Event("month_queries_offset_months_and_nsecs", 1)
+			case sp.OffsetMo != 0:
+				r.Event("month_queries_offset_months", 1)
+			case sp.Offset != 0:
+				r.Event("month_queries_offset_nsecs", 1)
+			}
+			if !exec(env, ds, envNo, mdone, sp, pred, mdone%53 == 7) {
+				return
+			}
+		}
+		env.Close()
 	}
+	r.Extra("month_stream_wall_s", int(time.Since(tMonths).Seconds())) // reporting only
 }
